@@ -297,7 +297,13 @@ psRes_t psX509ParseCertData(psPool_t *pool,
         }
         numParsed++;
         *tailp = current;
-        tailp = &(current->next);
+        /* One PEM block may hold several concatenated DER certificates,
+           in which case psX509ParseCert returned a chain: link the next
+           block after its last element, not after its first. */
+        while (*tailp != NULL)
+        {
+            tailp = &((*tailp)->next);
+        }
     }
     psFreeList(certDatas, pool);
     return numParsed;
